@@ -832,6 +832,16 @@ func (rw *responseWriter) WriteHeader(statusCode int) {
 	rw.ResponseWriter.WriteHeader(statusCode)
 }
 
+// Flush implements http.Flusher. ReverseProxy flushes streamed responses
+// (chunked without Content-Length, text/event-stream) after every write; without
+// this method the flush is silently dropped and the bytes sit in the server's
+// buffer until the response ends.
+func (rw *responseWriter) Flush() {
+	if f, ok := rw.ResponseWriter.(http.Flusher); ok {
+		f.Flush()
+	}
+}
+
 // Hijack implements the http.Hijacker interface to support websockets
 func (rw *responseWriter) Hijack() (net.Conn, *bufio.ReadWriter, error) {
 	h, ok := rw.ResponseWriter.(http.Hijacker)
